@@ -37,6 +37,8 @@ FAULTS = [
     [("data", ["hello:11", "connect:0", "garbage"])], [("data", ["connect:0", "hello:11"])],
     [("data", ["hello:01"])], [("data", ["hello:10"])], [("data", ["hello:11", "connect:1"])],
     [("data", ["discresp", "other"])], [("data", ["pingreq"])],
+    # a device that speaks Noise to a client configured for plaintext (the frame is a ServerHello): requires-encryption
+    [("data", ["srvhello"])], [("data", ["srvhello"]), ("cancel", "finish")], [("data", ["srvhello"]), ("eof",)],
     [("setWrite", 0)], [("setWrite", 0), ("data", ["pingreq"])], [("setWrite", 0), ("data", ["discreq"])],
     # a local close whose own DisconnectRequest cannot be written any more
     [("setWrite", 0), ("force",)], [("setWrite", 0), ("callDisc",), S, S], [("setWrite", 0), ("force",), ("force",)],
@@ -120,7 +122,12 @@ def noise_pool():
     only the library's timers can end the wait"""
     sk = [("callStart",), ("resolved", 1), S, ("sockDone", 1), S, ("callFinish",), S, S, S]
     silent_faults = [[], [("callDisc",)], [("force",)], [("cancel", "finish")], [("eof",)], [("reset",)], [("data", ["garbage"])],
-                     [("timer", "hs"), S], [S]]
+                     [("timer", "hs"), S], [S],
+                     # the ServerHello names ANOTHER device - alone, and with a second event in the same loop turn (the caller
+                     # gives up, a local close, the device hangs up): bad name, carrying the received name, whatever else happens
+                     [("data", ["srvhello"])], [("data", ["srvhello"]), ("cancel", "finish")], [("cancel", "finish"), ("data", ["srvhello"])],
+                     [("data", ["srvhello"]), ("force",)], [("data", ["srvhello"]), ("callDisc",)], [("data", ["srvhello"]), ("eof",)],
+                     [("data", ["srvhello"]), ("reset",)], [("data", ["srvhello"]), S, ("cancel", "finish")]]
     scen = []
     for pos in range(len(sk) + 1):
         for f in silent_faults:
